@@ -8,12 +8,12 @@ cd $WT && git checkout -q -- . && git clean -fdq -e target -e _seeded
 apply() { git apply --3way "$1" 2>/dev/null || git apply "$1" 2>/dev/null || patch -p1 -s < "$1"; }
 apply $D/demo.diff || { echo "RESULT demo-does-not-apply"; exit 0; }
 git reset -q
-cargo test --workspace --no-fail-fast --offline seeded 2>&1 | grep -E "^test .*seeded.* \.\.\. |^error" > /tmp/confirm_demo_only.txt
-DEMO_OK=$(grep -c "\.\.\. ok" /tmp/confirm_demo_only.txt); DEMO_FAIL=$(grep -c "FAILED" /tmp/confirm_demo_only.txt)
+cargo test --workspace --no-fail-fast --offline seeded 2>&1 | grep -E "^test .*seeded.* \.\.\. |^error" > /tmp/confirm_demo_only_$$.txt
+DEMO_OK=$(grep -c "\.\.\. ok" /tmp/confirm_demo_only_$$.txt); DEMO_FAIL=$(grep -c "FAILED" /tmp/confirm_demo_only_$$.txt)
 apply $D/patch.diff || { echo "RESULT patch-does-not-apply"; git checkout -q -- .; git clean -fdq -e target -e _seeded; exit 0; }
 git reset -q
-cargo test --workspace --no-fail-fast --offline 2>&1 | grep -E "^test .* \.\.\. |^error(\[|:)" > /tmp/confirm_full.txt
-PASS=$(grep -c "\.\.\. ok" /tmp/confirm_full.txt); FAILED=$(grep "FAILED" /tmp/confirm_full.txt | grep -vc seeded); SEEDFAIL=$(grep "FAILED" /tmp/confirm_full.txt | grep -c seeded)
-ERR=$(grep -c "^error" /tmp/confirm_full.txt)
+cargo test --workspace --no-fail-fast --offline 2>&1 | grep -E "^test .* \.\.\. |^error(\[|:)" > /tmp/confirm_full_$$.txt
+PASS=$(grep -c "\.\.\. ok" /tmp/confirm_full_$$.txt); FAILED=$(grep "FAILED" /tmp/confirm_full_$$.txt | grep -vc seeded); SEEDFAIL=$(grep "FAILED" /tmp/confirm_full_$$.txt | grep -c seeded)
+ERR=$(grep -c "^error" /tmp/confirm_full_$$.txt)
 echo "RESULT demo_only_ok=$DEMO_OK demo_only_fail=$DEMO_FAIL with_patch_pass=$PASS with_patch_other_fail=$FAILED with_patch_demo_fail=$SEEDFAIL build_errors=$ERR"
 git checkout -q -- .; git clean -fdq -e target -e _seeded
